@@ -131,13 +131,14 @@ static jv *run(jv *s)
     const char *am = j_str(s, "argmode", "vec");
     /* "held": the conversion is made first and must be a copy - the caller then overwrites and shrinks its container */
     reproc::arguments held(av);
+    reproc::arguments nullargs(static_cast<const char *const *>(nullptr));   /* "null": no argument vector at all */
     std::vector<std::string> av2 = av;
     if (!strcmp(am, "held")) { for (auto &x : av) for (auto &ch : x) ch = '#'; av.clear(); }
     if (!strcmp(op, "fork")) { auto r = p.fork(opt); ec = r.second; val = r.first ? 1 : 0; }
     else if (!strcmp(op, "clone_start")) {
       reproc::options c = reproc::options::clone(opt);
-      ec = !strcmp(am, "raw") ? p.start(rawargs.data(), c) : !strcmp(am, "held") ? p.start(held, c) : p.start(av, c);
-    } else ec = !strcmp(am, "raw") ? p.start(rawargs.data(), opt) : !strcmp(am, "held") ? p.start(held, opt) : p.start(av, opt);
+      ec = !strcmp(am, "null") ? p.start(nullargs, c) : !strcmp(am, "raw") ? p.start(rawargs.data(), c) : !strcmp(am, "held") ? p.start(held, c) : p.start(av, c);
+    } else ec = !strcmp(am, "null") ? p.start(nullargs, opt) : !strcmp(am, "raw") ? p.start(rawargs.data(), opt) : !strcmp(am, "held") ? p.start(held, opt) : p.start(av, opt);
     j_put(out, "c", received());
     j_put(out, "res", ec_obs(val, ec, mock_ret));
     return out;
